@@ -557,6 +557,54 @@ def r7(p, rep):
 
 
 # reviewed deviations of one factory module from its siblings: (function, callee or nested helper, framework) -> reason
+# keywords that the backend modules passed to einx building blocks when the sibling rule was reviewed (generated from the
+# pinned tree).  The majority comparison is made over these: an optional keyword that a later feature adds for the backends
+# that can support it (and the building blocks it adds) is outside what the review could say anything about
+REVIEWED_KEYWORDS = {
+ "adapter.classical_from_torch.ops": [
+  "get_device"
+ ],
+ "adapter.decomposednamedtensor_from_classical.elementwise": [
+  "expected_type"
+ ],
+ "adapter.decomposednamedtensor_from_classical.reduce": [
+  "expected_type"
+ ],
+ "adapter.decomposednamedtensor_from_vmap.op": [
+  "allow_squeeze_unsqueeze",
+  "classical",
+  "expected_type"
+ ],
+ "adapter.einsum_from_torch": [
+  "get_device"
+ ],
+ "adapter.einx_from_namedtensor.elementwise": [
+  "iskwarg"
+ ],
+ "adapter.einx_from_namedtensor.op": [
+  "el_op",
+  "implicit_output",
+  "iskwarg"
+ ],
+ "adapter.einx_from_namedtensor.reduce": [
+  "iskwarg"
+ ],
+ "adapter.namedtensor_calltensorfactory.op": [
+  "context",
+  "expected_type"
+ ],
+ "adapter.namedtensor_calltensorfactory.ops": [
+  "context",
+  "expected_type"
+ ],
+ "adapter.vmap_from_torch": [
+  "get_device"
+ ],
+ "tracer.signature.python.import_": [
+  "as_"
+ ]
+}
+
 SIBLING_DEVIATIONS = {
     ("_backend_creator", "adapter.namedtensor_calltensorfactory.ops", "arrayapi"): "array-api tensors are created inside the namespace context of the call (context=...): the namespace is only known from the arguments",
     ("adapt_numpylike_elementwise", "adapter.namedtensor_calltensorfactory.op", "arrayapi"): "same namespace context as _backend_creator",
@@ -614,7 +662,8 @@ def r8(p, rep):
                 if isinstance(c, ast.Call):
                     ch = attr_chain(c.func)
                     if ch and ch[0] in ("adapter", "tracer") and len(ch) >= 2:
-                        d[".".join(ch)].add(frozenset(k.arg for k in c.keywords if k.arg))
+                        if ".".join(ch) in REVIEWED_KEYWORDS or not any(k.arg for k in c.keywords):
+                            d[".".join(ch)].add(frozenset(k.arg for k in c.keywords if k.arg and k.arg in REVIEWED_KEYWORDS.get(".".join(ch), ())))
             sk[fw] = d
         callees = {c for d in sk.values() for c in d}
         for callee in sorted(callees):
